@@ -88,7 +88,38 @@ Fixpoint nullable (r : re) : bool :=
   | Rep a lo hi => hi_ge lo hi && ((lo =? 0) || nullable a)
   end.
 
-(* smart constructors: same language as Cat / Alt, smaller terms *)
+(* syntactic equality (used to drop duplicate alternatives) *)
+Fixpoint cs_eqb (a b : cset) : bool :=
+  match a, b with
+  | CsNone, CsNone => true
+  | CsRange l1 h1, CsRange l2 h2 => (l1 =? l2) && (h1 =? h2)
+  | CsUnion a1 a2, CsUnion b1 b2 => cs_eqb a1 b1 && cs_eqb a2 b2
+  | CsNeg a1, CsNeg b1 => cs_eqb a1 b1
+  | CsDiff a1 a2, CsDiff b1 b2 => cs_eqb a1 b1 && cs_eqb a2 b2
+  | _, _ => false
+  end.
+
+Definition hi_eqb (a b : option N) : bool :=
+  match a, b with
+  | None, None => true
+  | Some x, Some y => x =? y
+  | _, _ => false
+  end.
+
+Fixpoint re_eqb (a b : re) : bool :=
+  match a, b with
+  | Empty, Empty => true
+  | Eps, Eps => true
+  | Chr c1, Chr c2 => cs_eqb c1 c2
+  | Cat a1 a2, Cat b1 b2 => re_eqb a1 b1 && re_eqb a2 b2
+  | Alt a1 a2, Alt b1 b2 => re_eqb a1 b1 && re_eqb a2 b2
+  | Rep a1 l1 h1, Rep b1 l2 h2 => re_eqb a1 b1 && (l1 =? l2) && hi_eqb h1 h2
+  | _, _ => false
+  end.
+
+(* smart constructors: same language as Cat / Alt, smaller terms. mk_alt flattens nested choices
+   and drops Empty and repeated alternatives; without this the derivatives of nested quantifiers
+   such as a star of a star double in size with every character. *)
 Definition mk_cat (a b : re) : re :=
   match a, b with
   | Empty, _ => Empty
@@ -98,12 +129,26 @@ Definition mk_cat (a b : re) : re :=
   | _, _ => Cat a b
   end.
 
-Definition mk_alt (a b : re) : re :=
-  match a, b with
-  | Empty, _ => b
-  | _, Empty => a
-  | _, _ => Alt a b
+(* x is one of the alternatives of r *)
+Fixpoint alt_mem (x r : re) : bool :=
+  match r with
+  | Alt a b => alt_mem x a || alt_mem x b
+  | _ => re_eqb x r
   end.
+
+Definition alt_cons (x acc : re) : re :=
+  if alt_mem x acc then acc
+  else match acc with Empty => x | _ => Alt x acc end.
+
+(* the alternatives of x that are not yet in acc, in front of acc *)
+Fixpoint alt_add (x acc : re) : re :=
+  match x with
+  | Alt a b => alt_add a (alt_add b acc)
+  | Empty => acc
+  | _ => alt_cons x acc
+  end.
+
+Definition mk_alt (a b : re) : re := alt_add a (alt_add b Empty).
 
 Definition pred_hi (hi : option N) : option N :=
   match hi with None => None | Some h => Some (N.pred h) end.
